@@ -471,6 +471,9 @@ type Contract struct {
 	Ghost    []*Clause // ghost updates at call sites: "after callee: $x = expr"
 	Asserts  []*Clause
 	Pure     bool
+	Updates  []string          // ghost variables the function may change
+	Inits    map[string]SExpr  // ghost variables initialised at entry of this function (verification only)
+	Implements []string        // function-type roles whose contract this function must also satisfy
 	Trusted  bool // contract is assumed, the body is not verified against it (listed in the evidence)
 }
 
@@ -490,10 +493,11 @@ type SpecFile struct {
 	Ghosts    map[string]string    // ghost global name -> type
 	GhostList []string
 	TypeInvs  map[string]string // named struct type -> spec function (type invariant)
+	NonNilElems map[string]bool // element types (as written) whose occurrences inside slices and maps are never nil
 }
 
 func newSpecFile() *SpecFile {
-	return &SpecFile{Funcs: map[string]*SpecFunc{}, Contracts: map[string]*Contract{}, FuncTypes: map[string]*Contract{}, Ghosts: map[string]string{}, TypeInvs: map[string]string{}}
+	return &SpecFile{Funcs: map[string]*SpecFunc{}, Contracts: map[string]*Contract{}, FuncTypes: map[string]*Contract{}, Ghosts: map[string]string{}, TypeInvs: map[string]string{}, NonNilElems: map[string]bool{}}
 }
 
 // parseLabel parses "[C12,C01] name: rest" prefix pieces.
@@ -611,6 +615,16 @@ func (sf *SpecFile) load(path string) error {
 			sf.Ghosts[fs[0]] = fs[1]
 			sf.GhostList = append(sf.GhostList, fs[0])
 			cur = nil
+		case "eleminv":
+			// eleminv nonnil T1 T2 ...
+			fs := strings.Fields(rest)
+			if len(fs) < 2 || fs[0] != "nonnil" {
+				return fail(fmt.Errorf("eleminv nonnil <Type>..."))
+			}
+			for _, t := range fs[1:] {
+				sf.NonNilElems[t] = true
+			}
+			cur = nil
 		case "typeinv":
 			fs := strings.Fields(rest)
 			if len(fs) != 2 {
@@ -720,6 +734,37 @@ func (sf *SpecFile) load(path string) error {
 			}
 			cur.Pure = true
 			cur.HasMod = true
+		case "updates":
+			if cur == nil {
+				return fail(fmt.Errorf("clause outside func"))
+			}
+			for _, g := range strings.Split(rest, ",") {
+				if g = strings.TrimSpace(g); g != "" {
+					cur.Updates = append(cur.Updates, g)
+				}
+			}
+		case "implements":
+			if cur == nil {
+				return fail(fmt.Errorf("clause outside func"))
+			}
+			cur.Implements = append(cur.Implements, strings.TrimSpace(rest))
+		case "init":
+			// init $g = expr
+			if cur == nil {
+				return fail(fmt.Errorf("clause outside func"))
+			}
+			eq := strings.Index(rest, "=")
+			if eq < 0 {
+				return fail(fmt.Errorf("init $g = expr"))
+			}
+			x, err := parseSpec(strings.TrimSpace(rest[eq+1:]))
+			if err != nil {
+				return fail(err)
+			}
+			if cur.Inits == nil {
+				cur.Inits = map[string]SExpr{}
+			}
+			cur.Inits[strings.TrimSpace(rest[:eq])] = x
 		case "trusted":
 			if cur == nil {
 				return fail(fmt.Errorf("clause outside func"))
@@ -738,6 +783,41 @@ func (sf *SpecFile) load(path string) error {
 		default:
 			return fail(fmt.Errorf("unknown directive %q", word))
 		}
+	}
+	return nil
+}
+
+// resolveImplements copies the clauses of the implemented function-type contracts into the
+// implementing function's own contract (so they are proved for it); parameters are referred to
+// positionally (arg0, arg1, ...) in function-type contracts.
+func (sf *SpecFile) resolveImplements() error {
+	for _, n := range sf.Order {
+		c := sf.Contracts[n]
+		for _, role := range c.Implements {
+			ft, ok := sf.FuncTypes[role]
+			if !ok {
+				return fmt.Errorf("%s implements unknown functype %s", n, role)
+			}
+			c.Requires = append(append([]*Clause{}, ft.Requires...), c.Requires...)
+			c.Ensures = append(append([]*Clause{}, ft.Ensures...), c.Ensures...)
+			for _, u := range ft.Updates {
+				dup := false
+				for _, v := range c.Updates {
+					if v == u {
+						dup = true
+					}
+				}
+				if !dup {
+					c.Updates = append(c.Updates, u)
+				}
+			}
+			for _, p := range ft.Props {
+				if !hasStr(c.Props, p) {
+					c.Props = append(c.Props, p)
+				}
+			}
+		}
+		c.Implements = nil
 	}
 	return nil
 }
